@@ -28,6 +28,7 @@ type Frame struct {
 	closures map[ssa.Value]*closureRec
 	reach    map[*ssa.BasicBlock]string
 	edgeCond map[edgeKey]string
+	callBlock *ssa.BasicBlock // block of the call site (inlined activations)
 }
 
 type closureRec struct {
@@ -65,6 +66,10 @@ type FnEnc struct {
 	entryRegions *[]Region // the function's modifies clause evaluated at entry
 	callResults  map[string]Val // "<short name>#<ordinal>" -> result of that call
 	lastCall     string
+	curBlock     *ssa.BasicBlock
+	loopFrames   []loopFrame // loops with an explicit loopmodifies clause: regions at the loop head
+	srcOrd       map[token.Pos]int // call position -> ordinal among the calls of the same name, in source order
+	curCallPos   token.Pos
 }
 
 func (f *FnEnc) pos(p token.Pos) token.Position { return f.eng.fset.Position(p) }
@@ -106,7 +111,7 @@ func (f *FnEnc) newFrame(fn *ssa.Function, parent *Frame) *Frame {
 	for _, b := range fn.Blocks {
 		for _, in := range b.Instrs {
 			if a, ok := in.(*ssa.Alloc); ok {
-				if !a.Heap && f.localOK(a) {
+				if (!a.Heap || capturedOnlyLocally(a)) && f.localOK(a) {
 					fr.isLocal[a] = true
 				}
 				if a.Comment != "" {
@@ -160,6 +165,88 @@ func containsArray(t types.Type) bool {
 	return false
 }
 
+// capturedOnlyLocally: the variable is marked escaping only because closures
+// capture it, and every such closure is merely called from this function
+// (directly, through a local variable, or deferred) — so its cell can stay in
+// the symbolic store (the closures are inlined at their call sites).
+func capturedOnlyLocally(a *ssa.Alloc) bool {
+	refs := a.Referrers()
+	if refs == nil {
+		return false
+	}
+	captured := false
+	for _, r := range *refs {
+		mc, ok := r.(*ssa.MakeClosure)
+		if !ok {
+			continue
+		}
+		captured = true
+		if !closureOnlyCalled(mc) {
+			return false
+		}
+	}
+	return captured
+}
+
+func closureOnlyCalled(mc *ssa.MakeClosure) bool {
+	refs := mc.Referrers()
+	if refs == nil {
+		return false
+	}
+	for _, r := range *refs {
+		switch r := r.(type) {
+		case *ssa.Call:
+			if r.Call.Value != mc {
+				return false
+			}
+		case *ssa.Defer:
+			if r.Call.Value != mc {
+				return false
+			}
+		case *ssa.Store:
+			// stored into a local variable that is only loaded in order to be called
+			al, ok := r.Addr.(*ssa.Alloc)
+			if !ok || r.Val != mc || al.Referrers() == nil {
+				return false
+			}
+			for _, u := range *al.Referrers() {
+				switch u := u.(type) {
+				case *ssa.Store:
+					if u.Addr != al {
+						return false
+					}
+				case *ssa.UnOp:
+					if u.Referrers() == nil {
+						return false
+					}
+					for _, cu := range *u.Referrers() {
+						switch cu := cu.(type) {
+						case *ssa.Call:
+							if cu.Call.Value != u {
+								return false
+							}
+						case *ssa.Defer:
+							if cu.Call.Value != u {
+								return false
+							}
+						case *ssa.DebugRef:
+						default:
+							return false
+						}
+					}
+				case *ssa.DebugRef:
+				default:
+					return false
+				}
+			}
+		case *ssa.DebugRef:
+		default:
+			return false
+		}
+	}
+	return true
+}
+
 func addrUsesOK(v ssa.Value) bool {
 	refs := v.Referrers()
 	if refs == nil {
@@ -167,6 +254,8 @@ func addrUsesOK(v ssa.Value) bool {
 	}
 	for _, r := range *refs {
 		switch r := r.(type) {
+		case *ssa.MakeClosure:
+			// captured by a closure (see capturedOnlyLocally)
 		case *ssa.Store:
 			if r.Addr != v {
 				return false
@@ -217,7 +306,7 @@ func (f *FnEnc) globalRef(g *ssa.Global) string {
 	name := "glob!" + sanitize(g.Pkg.Pkg.Path()+"."+g.Name())
 	if !f.c.globals[name] {
 		f.c.raw(fmt.Sprintf("(declare-const %s Int)", name))
-		f.c.assume("true", and("(< 0 "+name+")", "(< "+name+" "+f.st0.alloc+")"))
+		f.c.assume("true", and("(< 0 "+name+")", "(< "+name+" "+f.st0.alloc+")", "(< (objtype "+name+") 1000)"))
 		for _, other := range sortedKeys(f.c.globals) {
 			f.c.assume("true", not(eq(name, other)))
 		}
@@ -642,6 +731,36 @@ func (f *FnEnc) encodeBody(fr *Frame, entry *State, guard string) []retRec {
 		if len(ins) == 0 {
 			continue
 		}
+		// tail duplication: a small block that only returns is encoded once
+		// per incoming edge, with that edge's state (no merge of the states of
+		// all the paths that fall through to a common `return`)
+		if len(ins) > 1 && loops[b] == nil && len(b.Instrs) <= 24 && len(b.Succs) == 0 {
+			if _, isRet := b.Instrs[len(b.Instrs)-1].(*ssa.Return); isRet {
+				for k, e := range ins {
+					stK := e.st.clone()
+					RK := f.c.define(fmt.Sprintf("R%d_%d_%d", fr.depth, b.Index, k), SBool, e.cond)
+					reach[b] = RK
+					f.curGuard = RK
+					f.curBlock = b
+					for _, in := range b.Instrs {
+						if p := in.Pos(); p.IsValid() {
+							f.curPos = p
+						}
+						switch in := in.(type) {
+						case *ssa.Return:
+							var res []Val
+							for _, r := range in.Results {
+								res = append(res, f.val(fr, r))
+							}
+							rets = append(rets, retRec{guard: RK, st: stK, results: res, pos: f.curPos})
+						default:
+							f.instr(fr, stK, RK, in)
+						}
+					}
+				}
+				continue
+			}
+		}
 		var conds []string
 		for _, e := range ins {
 			conds = append(conds, e.cond)
@@ -669,6 +788,7 @@ func (f *FnEnc) encodeBody(fr *Frame, entry *State, guard string) []retRec {
 		}
 		reach[b] = R
 		f.curGuard = R
+		f.curBlock = b
 		// instructions
 		ended := false
 		for _, in := range b.Instrs {
@@ -852,4 +972,11 @@ func sortedHeapKeys(m map[string]string) []string {
 	}
 	sort.Strings(out)
 	return out
+}
+
+type loopFrame struct {
+	fr   *Frame
+	li   *loopInfo
+	rs   []Region
+	alloc string // allocation counter at the loop head: objects allocated in the loop are >= it
 }
